@@ -77,6 +77,11 @@ CLAIMED = {
         engine="sim-conf", level="exploration", ref="DESIGN.md §6 C17 (conformance tier)",
         technique="deterministic simulation, fault-free conformance tier: seeded catalog programs against a name -> (kind, types, contents) model",
         text="Seeded generation of open/create/rename/delete/list programs on tables and multimaps with colliding names and deliberately wrong kinds and types, interleaved with data operations, handle drops, abort and reopen; every result including the error variant equals the model."),
+    "C18": dict(
+        engine="sim-cursor", level="exploration", ref="DESIGN.md §6 C18 (conformance tier, experimental_cursor build)",
+        technique="deterministic simulation, fault-free conformance tier on the experimental_cursor feature build: seeded cursor sessions against a sorted-map gap cursor, with commit / abort / reopen / dirty restart between sessions",
+        text="Seeded generation of cursor programs on real redb (built with experimental_cursor) on SimDisk: tables with u64 or long-shared-prefix &str keys and values from 0 bytes to several pages, page sizes 512..16384; read cursors and mutable cursors positioned by lower_bound/upper_bound with every bound kind; peek/next/prev, runs of insert_before (ascending) and insert_after (descending) including duplicates and out-of-order keys, remove_next/remove_prev; cursors closed or dropped; commits of both durabilities, aborts, reopen and dirty restart between sessions. Every result (entry, None, accepted, UnorderedKey) and the table after each session equal a gap cursor over a sorted map.",
+        note="Trusted base: harness model and generator. No schedule or storage fault is involved in this property; the simulator contributes determinism, replay, minimisation, configuration swarm and the reopen / restart steps. Decided on the feature build, not on the default feature set."),
     "C19": dict(
         engine="sim-compat", level="exploration", ref="DESIGN.md §6 C19",
         technique="deterministic simulation: two real implementations (the working tree and the released redb 3.0.0 from the offline cargo cache) alternate on one simulated disk, handing over clean-closed and crash-recovered files, against the reference model",
@@ -89,7 +94,6 @@ CLAIMED = {
 }
 
 NOT_YET = {
-    "C18": "check not built yet (experimental_cursor feature build of the conformance tier); no claim is made until it exists",
 }
 
 NA = {
@@ -141,6 +145,8 @@ manifest = {
          "kind_free_text": "the same simulator (release build without debug assertions) with stored-byte corruption of closed images"},
         {"name": "sim-compat", "path": "/verif/sim", "serves_properties": ["C19"],
          "kind_free_text": "the simulator with redb 3.0.0 (released crate, offline cache) linked as a second implementation on the same SimDisk"},
+        {"name": "sim-cursor", "path": "/verif/cursor", "serves_properties": ["C18"],
+         "kind_free_text": "stand-alone conformance harness on the experimental_cursor feature build of redb, same SimDisk and PRNG"},
         {"name": "sim-crash", "path": "/verif/sim", "serves_properties": [p for p in sorted(CLAIMED) if CLAIMED[p]["engine"] == "sim-crash"],
          "kind_free_text": "the same simulator plus crash-image exploration over the recorded backend op log (record once, crash many), nested crashes in recovery"},
     ],
